@@ -203,6 +203,13 @@ def build_events():
             ev[f"parse:{e.label}:pbf={pbf}"] = (lambda fr=fr, mode=e.mode, pbf=pbf: _inspect(UBXReader.parse(fr, msgmode=mode, parsebitfield=pbf)))
         if K.route_kwargs(e) is not None:
             ev[f"build:{e.label}"] = (lambda e=e: _inspect(K.build_kw(e, {n: 2 for n in C._size_fields(e.pdict)})))
+            # the same construction with EQUAL values of another type (2.0 for 2; -0.0 for the default 0.0 of a float
+            # field): whatever the verdict for such a value is, it must not depend on what was built before
+            if C._size_fields(e.pdict):
+                ev[f"buildf:{e.label}"] = (lambda e=e: _inspect(K.build_kw(e, {n: 2.0 for n in C._size_fields(e.pdict)})))
+            fl = [k for k, v in e.pdict.items() if isinstance(v, str) and v in ("R004", "R008")]
+            if fl:
+                ev[f"buildz:{e.label}"] = (lambda e=e, fl=fl: _inspect(K.build_kw(e, {fl[0]: -0.0})))
         if full:
             ev[f"setpoll:{e.label}"] = (lambda fr=fr: _inspect(UBXReader.parse(fr, msgmode=3)))
         CLSID_OF[e.label] = e.clsid.hex()
@@ -425,7 +432,7 @@ def same_clsid_pairs():
     groups = {}
     for n in sorted(ev):
         parts = n.split(":")
-        if parts[0] in ("parse", "build", "setpoll") and len(parts) >= 3 and ":fill=" not in n:
+        if parts[0] in ("parse", "build", "buildf", "buildz", "setpoll") and len(parts) >= 3 and ":fill=" not in n:
             lab = parts[1] + ":" + parts[2]
             cid = CLSID_OF.get(lab)
             if cid:
